@@ -653,7 +653,8 @@ pub fn random_op(r: &mut Rng, u: &Universe, w: &World, last: &Option<Op>, live: 
             let how = *r.pick(&[0u8, 0, 0, 1, 1, 2]);
             let frame = *r.pick(&u.data[s as usize]);
             // huge leaves may carry the PAT bit (bit 12 of a huge-page entry)
-            let f = leaf_flags(r) | if s > 0 && r.chance(1, 3) { 1 << 12 } else { 0 };
+            // ... and 4 KiB leaves their PAT bit (bit 7 of a level-1 entry, the bit that means HUGE_PAGE above)
+            let f = leaf_flags(r) | if s > 0 && r.chance(1, 3) { 1 << 12 } else { 0 } | if s == 0 && r.chance(1, 4) { 1 << 7 } else { 0 };
             let pf = parent_flags(r);
             // allocator schedule: enough frames, or fail at request 1, 2 or 3
             let mut answers: Vec<Option<u64>> = Vec::new();
@@ -678,7 +679,7 @@ pub fn random_op(r: &mut Rng, u: &Universe, w: &World, last: &Option<Op>, live: 
             Op::Map { s, page, frame, f, pf, how, answers }
         }
         x if x < mx[1] => Op::Unmap { s, page },
-        x if x < mx[2] => Op::Update { s, page, f: leaf_flags(r) | if s > 0 && r.chance(1, 3) { 1 << 12 } else { 0 } },
+        x if x < mx[2] => Op::Update { s, page, f: leaf_flags(r) | if s > 0 && r.chance(1, 3) { 1 << 12 } else { 0 } | if s == 0 && r.chance(1, 4) { 1 << 7 } else { 0 } },
         x if x < mx[3] => Op::SetFlags { s, page, k: 2 + r.below(3) as u8, f: parent_flags(r) },
         x if x < mx[4] => Op::TranslatePage { s, page },
         x if x < mx[5] => {
@@ -1139,8 +1140,45 @@ pub fn run_rpt_new(out: &mut Out, seed: u64, n: u64) {
             );
             done += 1;
         }
+        // two constructions around a change of the address-space root, inside one function: the
+        // second must look at the root register again
+        {
+            let t = va as *mut u64;
+            unsafe { *t.add(idx[0] as usize) = frame | 3 };
+            let other = frame ^ 0x2000;
+            for (a, b) in [(frame, other), (other, frame)] {
+                crate::cpu::CR[3].store(0x5000, SeqCst);
+                crate::cpu::drain();
+                let ks = rpt_new_switch(va, a, b);
+                let ins = crate::cpu::drain();
+                let name = |k: i64| ["Ok", "NotRecursive", "NotActive"][k as usize];
+                for (k, cr3) in [(ks[0], a), (ks[1], b)] {
+                    out.emit(Ev::new("rpt_new").w("addr", va).w("cr3", cr3).w("slot", frame | 3).str("k", name(k)).n("got", -2).n("fills", 0).raw("instrs", "[]"));
+                }
+                let _ = ins;
+                done += 2;
+            }
+        }
         unsafe { libc::munmap(va as *mut libc::c_void, 4096) };
     }
+}
+
+/// RecursivePageTable::new, a switch of the root with Cr3::write, RecursivePageTable::new again
+#[inline(never)]
+fn rpt_new_switch(va: u64, first_root: u64, new_root: u64) -> [i64; 2] {
+    use x86_64::registers::control::{Cr3, Cr3Flags};
+    use x86_64::structures::paging::mapper::InvalidPageTable;
+    use x86_64::structures::paging::{PhysFrame, RecursivePageTable};
+    let code = |r: Result<RecursivePageTable<'_>, InvalidPageTable>| match r {
+        Ok(_) => 0,
+        Err(InvalidPageTable::NotRecursive) => 1,
+        Err(InvalidPageTable::NotActive) => 2,
+    };
+    unsafe { Cr3::write(PhysFrame::containing_address(x86_64::PhysAddr::new(first_root)), Cr3Flags::empty()) };
+    let k1 = code(RecursivePageTable::new(unsafe { &mut *(va as *mut PageTable) }));
+    unsafe { Cr3::write(PhysFrame::containing_address(x86_64::PhysAddr::new(new_root)), Cr3Flags::empty()) };
+    let k2 = code(RecursivePageTable::new(unsafe { &mut *(va as *mut PageTable) }));
+    [k1, k2]
 }
 
 
